@@ -264,6 +264,7 @@ impl TraitHandler for PartialOrdEnumHandler {
         token_stream.extend(quote! {
             impl #impl_generics ::core::cmp::PartialOrd for #ident #ty_generics #where_clause {
                 #[inline]
+                #[allow(non_snake_case)]
                 fn partial_cmp(&self, other: &Self) -> ::core::option::Option<::core::cmp::Ordering> {
                     #partial_cmp_token_stream
                 }
